@@ -30,7 +30,8 @@ CHECKS['C11'] = dict(
     text=('Invariant RefsOK (every related_model names an existing model or an explicitly deleted one) proved to be '
           'preserved by ChangeField/DeleteField/RenameField/ChangeMeta, by RenameModel (all references rewritten, '
           'prefix names safe) and by DeleteModel (with the deletion exemption) for every signature with unique keys; '
-          'proved counterexamples for RenameAppLabel (F12) and the theorem for the repaired reference rewrite. The '
+          'proved counterexamples for RenameAppLabel (F12) and the theorem for the repaired reference rewrite; an exact app '
+          'id takes precedence over a legacy label when both match (C11_getApp_id_first, order read from the source). The '
           'simulate() model is tied to the real mutation classes by differential correspondence on relation-rich '
           'two-app signatures; dangling-reference oracle on real signatures and foreign-key oracle on the real SQLite '
           'database after renames.'),
@@ -41,7 +42,10 @@ CHECKS['C12'] = dict(
     text=('The control flow of Command.handle/_check_simulation is translated from source into a small IR on every run; '
           'a monitor analysis, proved sound once for all IR terms (reach_sound: any branch, any loop count, a fault in '
           'any call), is evaluated by the kernel on the generated terms: _perform_evolution is reachable only after '
-          '_check_simulation returned normally, which happens only with an empty residual diff or can_simulate=False. '
+          '_check_simulation returned normally, which happens only with an empty residual diff or can_simulate=False; '
+          'a residual diff with a changed or deleted entry is never "empty" (C12_residual_change_never_empty over the '
+          'body of Diff.is_empty read from the source; counterexample for the De Morgan slip), and the residual is taken '
+          'from the simulated side (C12_source_diff_direction). '
           'Preconditions of simulate (existing field, missing app/model/field, primary-key delete, non-null without '
           'initial) proved for every signature. Oracle: perturbed evolutions through the real `evolve --execute '
           '--noinput`, zero writes and identical snapshot on rejection.'),
@@ -55,7 +59,7 @@ CHECKS['C05'] = dict(
           'two versions of a field with the same type and relation the hinted ChangeField leaves no difference in '
           'either direction (C05_closure_changeField, every attribute alone or in combination); closure of added '
           'fields (C05_closure_addField); proved counterexamples for re-targeted relations (F5) and == vs diff() (F6). '
-          '_ATTRIBUTE_DEFAULTS is extracted from source; diff dictionaries, hinted mutations and the residual diff '
+          '_ATTRIBUTE_DEFAULTS and the lookup order of get_attr_default (C05_source_default_order) are extracted from source; diff dictionaries, hinted mutations and the residual diff '
           'after simulation are compared with the real code on generated signature pairs.'),
     design='§5 C05',
     note=COMMON_NOTE + 'The initial value carried by a hint is opaque (placeholder); field.get_internal_type()/db_type tables are hand-written for the property field space and validated by correspondence.')
@@ -160,7 +164,8 @@ CHECKS['C08'] = dict(
           'the invariant lifts to every history by induction), every executed label was unrecorded when the run was '
           'prepared, fresh apps execute nothing, recorded labels are never executed again, a failed run records '
           'nothing, records carry the version of their run; kernel-checked counterexample for mark-evolution-applied '
-          'on a never-evolved app (F40, predicted by the model and confirmed on the real code). Recorded rows and '
+          'on a never-evolved app (F40, predicted by the model and confirmed on the real code); that Evolver.evolve keeps '
+          'the new evolutions of every task is read from the source (C08_source_collects_all). Recorded rows and '
           'executed labels after every step of generated histories are compared with the model.'),
     design='§5 C08',
     note=COMMON_NOTE + 'The model records what a task plans to apply; whether SQL is emitted for a re-recorded label depends on the signature diff (subset relation checked).')
@@ -170,7 +175,7 @@ CHECKS['C17'] = dict(
           'EvolveAppTask.execute and _create_models, lifted to all executions (any task count, a fault in any call) by '
           'reach_sound: evolving at most once and before any work; exactly one evolved after _save_project_sig on a '
           'normal return; exactly one evolving_failed and no evolved on failure; applying/applied and creating/created '
-          'bracket the SQL and are never doubled. On the real code receivers on every public signal are interleaved '
+          'bracket the SQL and are never doubled; C17_source_saved_all ties the saved set to the source. On the real code receivers on every public signal are interleaved '
           'with the statement trace for fresh installs, upgrades, nothing-to-do runs and a failure at every write index; '
           'payload equality of the pairs, no applied/created after the failing statement, lock value restored.'),
     design='§5 C17',
@@ -194,7 +199,8 @@ CHECKS['C15'] = dict(
           'other app is the same value afterwards (frame), without a database nothing changes; the purge\'s clean-up '
           'of the stored signature removes at most the purged app\'s own entry and keeps every other entry, empty '
           'ones included (C15_purge_frame, C15_purge_no_new_entries; the clean-up mode is read from the source, '
-          'C15_source_purge_cleanup); owned-table list incl. '
+          'C15_source_purge_cleanup); an app whose label was changed is not reported as deleted when the lookup goes '
+          'through legacy labels (C15_relabelled_app_not_deleted, C15_source_deleted_lookup); owned-table list incl. '
           'auto-created many-to-many tables, prefix table names are different tables. On the real code: generated '
           'projects of two installed apps plus a stale app (tables + signature entries, not installed) with cross-app '
           'relations, M2M and prefix table names; `evolve --execute` with and without --purge, DeleteModel and '
@@ -220,7 +226,9 @@ CHECKS['C10'] = dict(
           'already applied) and which it executes (the rest, in chain order). Proved for every chain length, prefix and '
           'prior recorder state: every migration is accounted for exactly once (C10_partition), marked and already '
           'recorded migrations are never executed, nothing is recorded twice, execution follows chain order, afterwards '
-          'the whole chain is recorded and a further run marks and executes nothing (C10_second_run_noop). On the real '
+          'the whole chain is recorded and a further run marks and executes nothing (C10_second_run_noop); the stored '
+          'signature lists exactly the recorded migrations of its own app when the setter matches on the app label '
+          '(C10_signature_lists_exactly, key read from the source: C10_source_applied_migrations_key). On the real '
           'code: apps with k evolutions then MoveToDjangoMigrations(mark_applied=prefix S) and an in-memory chain of m '
           'migrations, every S, start states fresh / each earlier evolution / already migrated, alone and next to an '
           'evolution-only app (all 54 parameter combinations in the thorough tier): signal order, recorder rows, stored '
@@ -237,7 +245,7 @@ CHECKS['C14'] = dict(
           'sorts or walks the declared list (C14_perm_invariant), with a counterexample for iteration over the set itself '
           '(finding F14, repaired in /repo); the iteration mode of change_meta_unique_together / '
           'change_meta_index_together is extracted from the source on every run and C14_source_iteration_deterministic '
-          'is re-checked against it. C14_equal_if_defs_unchanged / C14_cex_preview_differs: a second optimiser pass over '
+          'is re-checked against it, likewise the walk over DeleteModel\'s join tables (C14_source_delete_model_ordered). C14_equal_if_defs_unchanged / C14_cex_preview_differs: a second optimiser pass over '
           'definitions the first pass left alone gives the same list, and not otherwise. On the real code every case '
           '(generated upgrades with rows plus the family "unique_together/index_together from one set of 0-4 pairs to '
           'another") runs in 4 (quick) / 16 (thorough) fresh processes with different PYTHONHASHSEED; each runs '
